@@ -35,7 +35,7 @@ func romanParse(in []byte, rule roman.Rule, T string) (n roman.Number, err error
 		if T == "s" {
 			n, err = roman.DefaultParser(string(in), rule)
 		} else {
-			n, err = roman.DefaultParser(in, rule)
+			n, err = roman.DefaultParser(reused(in), rule)
 		}
 	})
 	return
@@ -60,7 +60,13 @@ func init() {
 				b = []byte("!error")
 			}
 			outs[f] = S(b)
-			v, perr := roman.DefaultParser(string(b), 0)
+			var v roman.Number
+			var perr error
+			if f%2 == 0 {
+				v, perr = roman.DefaultParser(string(b), 0)
+			} else {
+				v, perr = roman.DefaultParser(reused(b), 0)
+			}
 			if perr != nil {
 				backs[f] = -1
 			} else {
@@ -80,6 +86,20 @@ func init() {
 			mt = []byte("!error")
 		}
 		e["mt"], e["str"] = S(mt), S(n.String())
+		keep := append([]byte(nil), mt...)
+		for i := range mt {
+			mt[i] = '#'
+		}
+		mt2, err2 := n.MarshalText()
+		if err2 != nil {
+			mt2 = []byte("!error")
+		}
+		e["mt2"] = S(mt2)
+		mt = keep
+		held, _ := n.MarshalText()
+		_, _ = (n + 1234).MarshalText()
+		_, _ = roman.DefaultFormatter(nil, n+77, roman.DefaultFormat)
+		e["held"] = S(held)
 		e["vs"], e["vR"], e["vr"] = S(fmt.Sprintf("%s", n)), S(fmt.Sprintf("%R", n)), S(fmt.Sprintf("%r", n))
 		e["vL"], e["vl"] = S(fmt.Sprintf("%L", n)), S(fmt.Sprintf("%l", n))
 		var r roman.Number = 987654
